@@ -7,6 +7,9 @@
 #include "iogateway/MiniPacketTunnelIOGateway.h"
 #include "iogateway/MessageIOGateway.h"
 #include "dataio/PacketDataIO.h"
+#include "dataio/ByteBufferPacketDataIO.h"
+#include "dataio/PacketizedProxyDataIO.h"
+#include "transport/choppy.h"
 #include "system/SetupSystem.h"
 #include "syslog/SysLog.h"
 #include <deque>
@@ -54,7 +57,7 @@ struct Recv : public AbstractGatewayMessageReceiver
    }
 };
 
-struct Cfg {bool mini, slave; uint32 mtu; uint8 level; int nsend;};
+struct Cfg {bool mini, slave; uint32 mtu; uint8 level; int nsend; bool libTransport;};   // libTransport: the receiver reads through the library's own ByteBufferPacketDataIO instead of the harness transport
 static AbstractMessageIOGatewayRef MakeTunnel(const Cfg & c, bool receiver)
 {
    AbstractMessageIOGatewayRef sl; if (c.slave) {sl.SetRef(new MessageIOGateway); if (receiver) sl()->SetPacketRemoteLocationTaggingEnabled(false);}   // a packet-mode slave tags Messages with the sender's address by default: off, so received == sent
@@ -65,7 +68,16 @@ static AbstractMessageIOGatewayRef MakeTunnel(const Cfg & c, bool receiver)
 static void Deliver(const Cfg & c, const std::vector<Pkt> & arrived, BS * bs, Recv & recv)
 {
    Net in; for (size_t i=0; i<arrived.size(); i++) in.q.push_back(arrived[i]);
-   AbstractMessageIOGatewayRef rcv = MakeTunnel(c, true); PktIO * rio = new PktIO(&in, NULL, c.mtu, 9, bs); rcv()->SetDataIO(DataIORef(rio));
+   AbstractMessageIOGatewayRef rcv = MakeTunnel(c, true);
+   if (c.libTransport)
+   {
+      Queue<ConstByteBufferRefAndIPAddressAndPort> bufs;
+      for (size_t i=0; i<arrived.size(); i++) {ByteBufferRef bb = GetByteBufferFromPool((uint32)arrived[i].b.size(), (const uint8 *)arrived[i].b.data()); (void) bufs.AddTail(ConstByteBufferRefAndIPAddressAndPort(bb, IPAddressAndPort(localhostIP, (uint16)(1000+arrived[i].from))));}
+      ByteBufferPacketDataIO * bio = new ByteBufferPacketDataIO(bufs, c.mtu); rcv()->SetDataIO(DataIORef(bio));
+      for (int r=0; (r<20000)&&(bio->GetBuffersToRead().HasItems()); r++) if (rcv()->DoInput(recv).IsError()) vf::Fail("tunnel receiver reported an I/O error (ByteBufferPacketDataIO transport)");
+      return;
+   }
+   PktIO * rio = new PktIO(&in, NULL, c.mtu, 9, bs); rcv()->SetDataIO(DataIORef(rio));
    for (int r=0; (r<20000)&&(in.q.empty() == false); r++) if (rcv()->DoInput(recv).IsError()) vf::Fail("tunnel receiver reported an I/O error");
 }
 
@@ -79,13 +91,56 @@ static void CheckSafety(const Cfg & c, const Recv & recv, const std::multiset<st
    }
 }
 
+// the tunnel over a byte stream: the library's PacketizedProxyDataIO frames each packet with a length prefix; the sender writes into an in-memory
+// pipe, the receiver reads it in generated segment sizes (incl. 0 = would-block and 1 byte at a time).  Nothing is lost: everything sent must arrive, once, in order.
+static int RunStream(Cfg c, BS & bs)
+{
+   using namespace choppy;
+   c.nsend = 1;
+   Pipe pipe; Plan wplan(&bs); wplan.generous = true; Plan rplan(&bs);
+   DataIORef childW(new ChopIO(NULL, &pipe, &wplan)); PacketizedProxyDataIO * pw = new PacketizedProxyDataIO(childW, c.mtu); DataIORef pwRef(pw);
+   AbstractMessageIOGatewayRef snd = MakeTunnel(c, false); snd()->SetDataIO(pwRef);
+   std::vector<std::string> sent; uint64_t h = 77|((uint64_t)c.mtu<<8)|(c.mini ? 1 : 0); size_t biggest = 0;
+   const uint32 fakeMtu = MUSCLE_MAX_PAYLOAD_BYTES_PER_UDP_ETHERNET_PACKET;
+   const uint32 nm = 1+bs.u8()%6;
+   for (uint32 k=0; k<nm; k++)
+   {
+      MessageRef m = GetMessageFromPool(bs.u8()%4); uint32 len = (bs.u8()%3 == 0) ? bs.range(0, 6*c.mtu) : bs.range(0, 60); if (len > 8000) len = 8000;
+      if ((c.slave)&&(vf::AllowKnown("F25") == false)&&(len+64 > fakeMtu)) {len = bs.range(0, 200); vf::Excluded("F25");}
+      if (len) {std::string v(len, '\0'); uint32 x = bs.u8(); for (uint32 j=0; j<len; j++) {x = x*1664525u+1013904223u; v[j] = (char)(x>>24);} (void) m()->AddData("d", B_RAW_TYPE, v.data(), len);}
+      (void) m()->AddInt32("seq", (int32)k);
+      ByteBufferRef fb = m()->FlattenToByteBuffer(); const std::string fl((const char *)fb()->GetBuffer(), fb()->GetNumBytes());
+      const uint32 overhead = c.mini ? (12+4+(c.slave ? 8 : 0)) : 0; const bool fits = (c.mini == false)||(fl.size()+overhead <= c.mtu);
+      if (snd()->AddOutgoingMessage(m).IsError()) vf::Fail("AddOutgoingMessage failed");
+      if (fits) sent.push_back(fl); h = vf::HashStr(fl, h); if (fl.size() > biggest) biggest = fl.size();
+   }
+   for (int r=0; r<50000; r++)
+   {
+      while(pw->HasBufferedOutput()) pw->WriteBufferedOutput();
+      if (snd()->HasBytesToOutput() == false) break;
+      if (snd()->DoOutput().IsError()) vf::Fail("tunnel sender reported an I/O error over the packetized stream transport");
+      if (r == 49999) vf::Fail("tunnel sender never finished its output over the packetized stream transport");
+   }
+   while(pw->HasBufferedOutput()) pw->WriteBufferedOutput();
+   const size_t streamBytes = pipe.q.size();
+   DataIORef childR(new ChopIO(&pipe, NULL, &rplan)); DataIORef prRef(new PacketizedProxyDataIO(childR, c.mtu));
+   AbstractMessageIOGatewayRef rcv = MakeTunnel(c, true); rcv()->SetDataIO(prRef); Recv recv;
+   for (int r=0; (r<200000)&&(pipe.q.size()); r++) {if (r > 20000) rplan.generous = true; if (rcv()->DoInput(recv).IsError()) vf::Fail("tunnel receiver reported an I/O error over the packetized stream transport (mini=%d mtu=%u slave=%d, %zu stream bytes, %llu partial reads so far)", (int)c.mini, c.mtu, (int)c.slave, streamBytes, (unsigned long long)rplan.partialOps);}
+   for (int r=0; r<8; r++) (void) rcv()->DoInput(recv);
+   std::vector<std::string> g; for (size_t i=0; i<recv.got.size(); i++) g.push_back(recv.got[i].first);
+   if (g != sent) vf::Fail("packetized stream transport (nothing lost): %zu (fitting) Messages sent, %zu received%s (mini=%d mtu=%u slave=%d, %zu stream bytes, %llu partial reads)", sent.size(), g.size(), (g.size() == sent.size()) ? ", different content or order" : "", (int)c.mini, c.mtu, (int)c.slave, streamBytes, (unsigned long long)rplan.partialOps);
+   vf::Count("mode_packetized_stream_transport"); vf::Count(c.mini ? "mini_tunnel" : "packet_tunnel");
+   if ((rplan.partialOps >= 2)&&(sent.size() >= 1)) {vf::NonTrivial(vf::HashMix(h, rplan.partialOps)); if (vf::WantSample()) {char b[200]; snprintf(b, sizeof(b), "%s over PacketizedProxyDataIO mtu=%u slave=%d: %zu Messages (largest %zu bytes) in %zu stream bytes, %llu partial reads", c.mini ? "mini tunnel" : "packet tunnel", c.mtu, (int)c.slave, sent.size(), biggest, streamBytes, (unsigned long long)rplan.partialOps); vf::Sample(b);}}
+   return 0;
+}
+
 extern "C" int vf_run_case(const uint8_t * data, size_t size)
 {
    static CompleteSetupSystem * css = NULL; if (css == NULL) {css = new CompleteSetupSystem; SetConsoleLogLevel(MUSCLE_LOG_NONE);}
    if (size < 8) return 0;
    BS bs(data, size);
    Cfg c; c.mini = bs.flip(); const uint8_t faultMode = bs.u8()%4;   // 0 fault-free, 1 sampled faults, 2 exhaustive plans (short sequences), 3 fault-free with would-block writes
-   c.slave = bs.flip(); c.nsend = 1+bs.u8()%3;
+   c.slave = bs.flip(); const uint8_t nsb = bs.u8(); c.nsend = 1+nsb%3; c.libTransport = ((nsb/3)%2 == 1); const bool streamMode = ((nsb/6)%8 == 7)&&((faultMode == 0)||(faultMode == 3));
    {const uint8_t k = bs.u8()%6; c.mtu = c.mini ? ((k == 0) ? 17 : ((k == 1) ? bs.range(17, 60) : ((k == 2) ? 1500 : bs.range(60, 1500)))) : ((k == 0) ? 25 : ((k == 1) ? bs.range(25, 60) : ((k == 2) ? 1500 : bs.range(26, 400))));}
    c.level = c.mini ? (uint8)("\0\1\x09\6"[bs.u8()%4]) : 0;
    const bool blocks = (faultMode == 3)||((faultMode == 1)&&(bs.flip()));
@@ -93,6 +148,7 @@ extern "C" int vf_run_case(const uint8_t * data, size_t size)
    // known finding F25: with a slave gateway on a packet transport the reassembled buffer is fed through a fake packet DataIO of the compile-time UDP payload size: larger Messages are dropped
    const uint32 fakeMtu = MUSCLE_MAX_PAYLOAD_BYTES_PER_UDP_ETHERNET_PACKET; const bool f25 = vf::AllowKnown("F25");
 
+   if (streamMode) return RunStream(c, bs);
    Net wire; AbstractMessageIOGatewayRef snd[3]; PktIO * sio[3];
    for (int i=0; i<c.nsend; i++)
    {
@@ -182,7 +238,7 @@ extern "C" int vf_run_case(const uint8_t * data, size_t size)
       plans = 1;
    }
    vf::Count(c.mini ? "mini_tunnel" : "packet_tunnel"); static const char * const FM[] = {"mode_fault_free", "mode_sampled_faults", "mode_exhaustive_plans", "mode_fault_free_with_would_block_writes"}; vf::Count(FM[faultMode]);
-   if (c.slave) vf::Count("with_slave_gateway"); if (wrap) vf::Count("message_id_wraparound"); if (c.nsend > 1) vf::Count("several_senders"); vf::Count("packets", packets.size()); vf::Count("would_block_writes", blocked);
+   if (c.slave) vf::Count("with_slave_gateway"); if (c.libTransport) vf::Count("receiver_on_library_ByteBufferPacketDataIO"); if (wrap) vf::Count("message_id_wraparound"); if (c.nsend > 1) vf::Count("several_senders"); vf::Count("packets", packets.size()); vf::Count("would_block_writes", blocked);
    if (nontrivial) {vf::NonTrivial(vf::HashMix(h, faultMode)); if (vf::WantSample()) {char b[200]; snprintf(b, sizeof(b), "%s mtu=%u slave=%d level=%u senders=%d: %u Messages (largest %zu bytes) in %zu packets, %s, %llu plan(s), %u would-block writes", c.mini?"mini tunnel":"packet tunnel", c.mtu, (int)c.slave, c.level, c.nsend, nm, biggest, packets.size(), FM[faultMode], (unsigned long long)plans, blocked); vf::Sample(b);}}
    return 0;
 }
